@@ -14,8 +14,9 @@ import (
 // C17 — resources read back what was written, whichever implementation.
 
 func c17TypeD(k Kind) TypeD {
-	return TypeD{Name: "t", Attrs: []AttrD{{"k", k}, {"s", Kind{j.AttrTypeString, false}}},
-		Rels: []RelD{{"one", true, "u", ""}, {"many", false, "u", ""}}}
+	// "ks" and "oneself" are declared BEFORE the fields whose names are their prefixes
+	return TypeD{Name: "t", Attrs: []AttrD{{"ks", Kind{j.AttrTypeString, false}}, {"k", k}, {"s", Kind{j.AttrTypeString, false}}},
+		Rels: []RelD{{"oneself", true, "u", ""}, {"one", true, "u", ""}, {"many", false, "u", ""}}}
 }
 
 type c17Op struct {
@@ -63,8 +64,9 @@ type c17Sys struct {
 	model map[string]any
 	ops   []c17Op
 	// the value last handed to Set, per implementation and field
-	cur  [2]map[string]any
-	last string
+	cur   [2]map[string]any
+	last  string
+	eager bool
 }
 
 // c17Scribble overwrites, in place, a value the caller handed to Set earlier
@@ -129,11 +131,11 @@ func c17Observe(impl string, k Kind, r j.Resource, model map[string]any, d TypeD
 			what, msg = "type-name", fmt.Sprintf("%s: GetType().Name = %q", impl, n)
 			return
 		}
-		if got, want := SortedKeys(r.Attrs()), []string{"k", "s"}; !reflect.DeepEqual(got, want) {
+		if got, want := SortedKeys(r.Attrs()), []string{"k", "ks", "s"}; !reflect.DeepEqual(got, want) {
 			what, msg = "attrs", fmt.Sprintf("%s: Attrs() = %v", impl, got)
 			return
 		}
-		if got, want := SortedKeys(r.Rels()), []string{"many", "one"}; !reflect.DeepEqual(got, want) {
+		if got, want := SortedKeys(r.Rels()), []string{"many", "one", "oneself"}; !reflect.DeepEqual(got, want) {
 			what, msg = "rels", fmt.Sprintf("%s: Rels() = %v", impl, got)
 			return
 		}
@@ -147,6 +149,15 @@ func c17Observe(impl string, k Kind, r j.Resource, model map[string]any, d TypeD
 		}
 		if g, ok := r.Get("s").(string); !ok || g != model["s"].(string) {
 			what, msg = "get-attr-s", fmt.Sprintf("%s: Get(s) = %v, want %q", impl, r.Get("s"), model["s"])
+			return
+		}
+		// never set: a Set of "k" / "one" must not land in the fields they are a prefix of
+		if g, ok := r.Get("ks").(string); !ok || g != "" {
+			what, msg = "get-untouched-attr", fmt.Sprintf("%s: Get(ks) = %v, never set", impl, r.Get("ks"))
+			return
+		}
+		if g, ok := r.Get("oneself").(string); !ok || g != "" {
+			what, msg = "get-untouched-rel", fmt.Sprintf("%s: Get(oneself) = %v, never set", impl, r.Get("oneself"))
 			return
 		}
 		if g, ok := r.Get("one").(string); !ok || g != model["one"].(string) {
@@ -210,6 +221,11 @@ func (y *c17Sys) Apply(opi int) (fails []mc.Violation, fatal bool) {
 	}
 	y.model[o.field] = v
 	y.last = desc
+	if y.eager {
+		// second search: everything is read after every Set
+		f, _ := y.final()
+		fails = append(fails, f...)
+	}
 	return
 }
 
@@ -217,6 +233,13 @@ func (y *c17Sys) Apply(opi int) (fails []mc.Violation, fatal bool) {
 // (reading is an operation of its own, so histories with reads between the
 // Sets are explored too).
 func (y *c17Sys) Final() (fails []mc.Violation, fatal bool) {
+	if y.eager {
+		return nil, false
+	}
+	return y.final()
+}
+
+func (y *c17Sys) final() (fails []mc.Violation, fatal bool) {
 	for _, im := range []struct {
 		name string
 		r    j.Resource
@@ -228,6 +251,8 @@ func (y *c17Sys) Final() (fails []mc.Violation, fatal bool) {
 	return
 }
 
+var c17Eager bool
+
 func c17BFS(c *Ctx, k Kind) *mc.BFS {
 	depth := 4
 	if Thorough() {
@@ -235,9 +260,11 @@ func c17BFS(c *Ctx, k Kind) *mc.BFS {
 	}
 	ops := c17Ops(k)
 	return &mc.BFS{
-		Name: "C17/set-histories", NOps: len(ops), MaxDepth: depth, Workers: c.Workers, R: c.R,
+		Name: map[bool]string{false: "C17/set-histories", true: "C17/set-histories-read-after-every-step"}[c17Eager], NOps: len(ops), MaxDepth: depth, Workers: c.Workers, R: c.R,
 		OpName: func(i int) string { return fmt.Sprintf("[%s] Set(%q, %s)", k, ops[i].field, ops[i].show) },
-		New:    func() mc.System { return c17New(k) },
+		New:    func(eager bool) func() mc.System {
+			return func() mc.System { y := c17New(k); y.eager = eager; return y }
+		}(c17Eager),
 	}
 }
 
@@ -471,7 +498,7 @@ func c17Equal(x *mc.Exec) {
 func init() {
 	Register(&Prop{
 		ID: "C17",
-		Rule: "Engine B: for each of the 28 kinds, breadth-first search over ALL Set histories (depth <= 4 quick / 8 thorough) on a soft resource and a struct-wrapped resource of the same type driven side by side (3 values of the kind + typed nil + untyped nil for nullable kinds, 2 values each for a string attribute, to-one, to-many and id), de-duplicated by deep snapshot; after every Set the caller overwrites in place the value it handed to the previous Set of that field; nothing is read between the operations of a history ('read everything' is an operation of its own); after the last step every observable (GetType().Name, Attrs, Rels, attribute definition, Get of every field and id) of both implementations is compared with a map model. Engine A: 28 kinds x 5 constructors of fresh resources (Type.New soft/struct, SoftResource.New, Wrapper.New, Wrapper.New after Set); all ordered pairs of a pool of 29 resource variants (incl. one instant read in two zones) x {soft,wrapped} that differ from a base in exactly one aspect, for reflexivity, symmetry and 'never equal when different'",
+		Rule: "Engine B: for each of the 28 kinds, breadth-first search over ALL Set histories (depth <= 4 quick / 8 thorough) on a soft resource and a struct-wrapped resource of the same type driven side by side (3 values of the kind + typed nil + untyped nil for nullable kinds, 2 values each for a string attribute, to-one, to-many and id), de-duplicated by deep snapshot; after every Set the caller overwrites in place the value it handed to the previous Set of that field; two searches: in the first nothing is read between the operations of a history ('read everything' is an operation of its own), in the second everything is read after every Set; after the last step every observable (GetType().Name, Attrs, Rels, attribute definition, Get of every field and id) of both implementations is compared with a map model. Engine A: 28 kinds x 5 constructors of fresh resources (Type.New soft/struct, SoftResource.New, Wrapper.New, Wrapper.New after Set); all ordered pairs of a pool of 29 resource variants (incl. one instant read in two zones) x {soft,wrapped} that differ from a base in exactly one aspect, for reflexivity, symmetry and 'never equal when different'",
 		Assumptions: []string{"an unset byte string reads as empty or nil, a nil nullable as typed or untyped nil (as stated)", "one instant read in two zones counts as two different field values (they print, marshal and compare with == differently)", "a value handed to an earlier Set and since replaced belongs to the caller again"},
 		Harnesses: []Harness{
 			{Name: "C17/set-histories",
@@ -483,6 +510,30 @@ func init() {
 					}
 				},
 				ReplayCustom: func(c *Ctx, choices []int) []mc.Violation {
+					// the kind is not part of the history: try each and keep failures
+					var all []mc.Violation
+					for _, k := range AllKinds() {
+						if len(choices) > 0 && choices[0] >= len(c17Ops(k)) {
+							continue
+						}
+						v, _ := c17BFS(c, k).ReplayHistory(choices)
+						all = append(all, v...)
+					}
+					return all
+				}},
+			{Name: "C17/set-histories-read-after-every-step",
+				Custom: func(c *Ctx) {
+					c17Eager = true
+					defer func() { c17Eager = false }()
+					for _, k := range AllKinds() {
+						if !c17BFS(c, k).Explore() {
+							c.R.Cap("C17/set-histories incomplete for " + k.String())
+						}
+					}
+				},
+				ReplayCustom: func(c *Ctx, choices []int) []mc.Violation {
+					c17Eager = true
+					defer func() { c17Eager = false }()
 					// the kind is not part of the history: try each and keep failures
 					var all []mc.Violation
 					for _, k := range AllKinds() {
